@@ -196,6 +196,7 @@ func checkTypeSystem(c *core.Ctx, orderProp bool) {
 	infos := map[int]*info{}
 	var nontrivial int64
 	id := 0
+	var handInvolved []string // with handItems: the names of the definitions involved in the list's single violation
 	var handItems []SDLItem // when set: a hand-written list of definitions whose order must not matter
 	addCase := func(doc *ASDoc, fault *SchemaFault, handText string) {
 		var items []SDLItem
@@ -209,6 +210,8 @@ func checkTypeSystem(c *core.Ctx, orderProp bool) {
 		inv := []string{}
 		if fault != nil {
 			inv = fault.Involved
+		} else if handItems != nil && handInvolved != nil {
+			inv = handInvolved
 		}
 		var variants []tsVariant
 		var base strings.Builder
@@ -217,7 +220,7 @@ func checkTypeSystem(c *core.Ctx, orderProp bool) {
 			base.WriteString("\n")
 		}
 		v0 := tsVariant{Sources: []*ast.Source{{Name: "schema.graphql", Input: base.String()}}, Files: []string{}}
-		if fault != nil {
+		if fault != nil || (handItems != nil && handInvolved != nil) {
 			v0.Files = []string{"schema.graphql"}
 		}
 		variants = append(variants, v0)
@@ -328,7 +331,18 @@ func checkTypeSystem(c *core.Ctx, orderProp bool) {
 			handSet[strings.TrimSpace(base.String())] = true // no generator intent: the specification decides
 			addCase(nil, nil, "")
 		}
-		handItems = nil
+		// hand-written lists with ONE violation and the definitions involved in it: whichever order and partition,
+		// the load error names a file that holds one of them
+		for _, hf := range handFaultLists {
+			handItems, handInvolved = hf.items, hf.involved
+			var base strings.Builder
+			for _, it := range hf.items {
+				base.WriteString(it.Text + "\n")
+			}
+			handSet[strings.TrimSpace(base.String())] = true
+			addCase(nil, nil, "")
+		}
+		handItems, handInvolved = nil, nil
 	}
 	// generator intent (three-way agreement): valid must load, faulty must not
 	for _, inf := range infos {
@@ -432,6 +446,25 @@ func ordItems(texts ...string) []SDLItem {
 	return out
 }
 
+var handFaultLists = []struct {
+	items    []SDLItem
+	involved []string
+}{
+	// an undefined member added by one extension of a union; an implementer elsewhere narrows a field to a member
+	// listed after it
+	{ordItems("interface Node { item: Result }", "type Album implements Node { item: Track }", "union Result = Photo", "extend union Result = Missing", "extend union Result = Track",
+		"type Track { t: Int }", "type Photo { p: Int }", "type Query { n: Node }"), []string{"Result"}},
+	{ordItems("interface Node { item: Result }", "type Zebra implements Node { item: Track }", "type Album implements Node { item: Photo }", "extend union Result = Track | Gone | Photo",
+		"type Track { t: Int }", "type Photo { p: Int }", "type Query { n: Node }"), []string{"Result"}},
+	// an undefined interface named by a type others refer to
+	{ordItems("interface Person { n: Int }", "interface Content { author: Person }", "type Article implements Content { author: Writer }", "type Writer implements Person { n: Int }",
+		"extend type Writer implements Missing", "type Query { a: Article }"), []string{"Writer"}},
+	// an undefined directive on an extension, far from the base type
+	{ordItems("type A { x: Int }", "type B { a: A }", "extend type A @nope", "type Query { b: B }", "interface I { x: Int }", "extend type A implements I"), []string{"A"}},
+	// a field of an undefined type added by an extension of an interface that others implement
+	{ordItems("interface I { x: Int }", "type T implements I { x: Int y: Gone2 }", "type Query { t: T i: I }", "extend interface I { z: Int }", "extend type T { z: Int }"), []string{"T"}},
+}
+
 var handOrderItems = [][]SDLItem{
 	// a field narrowed to one implementer of an interface that another INTERFACE implements too
 	ordItems("interface Node { id: ID }", "interface Named implements Node { id: ID name: String }", "type User implements Node { id: ID }", "interface Holder { item: Node items: [Node!] }",
@@ -516,6 +549,9 @@ func smallTypeSystems(k int) []string {
 }
 
 var handSchemas = []string{
+	// an undefined interface named by the type that another implementer narrows a field to
+	"interface Person { n: Int } interface Content { author: Person } type Article implements Content { author: Writer } type Writer implements Missing & Person { n: Int } type Query { a: Article }",
+	"interface Person { n: Int } interface Content { author: Person } type Article implements Content { author: Writer } type Writer implements Person & Missing { n: Int } union Ux = Writer | Gone type Query { a: Article }",
 	// the same extensions of BUILT-IN definitions loaded again and again in one process (twice here, once more per
 	// permutation in C17): every load starts from pristine built-ins
 	"extend type __Type { mine: Int } extend scalar String @tag extend enum __TypeKind { EXTRA } directive @tag on SCALAR type Query { a: String }",
